@@ -26,7 +26,7 @@ NAN = float("nan")
 def make_term(t: dict):
     cls = t["cls"]
     if cls == "Function":
-        return fl.Function(t["name"], t["formula"])
+        return fl.Function(t["name"], t["formula"], load=True)  # loaded before the engine exists (the engine re-links it)
     if cls == "Constant":
         return fl.Constant(t["name"], t["params"][0])
     if cls == "Linear":
@@ -58,8 +58,9 @@ def rule_text(r: dict) -> str:
     return RG.rule_text(r["ante"], r["cons"], r.get("weight"), r.get("style", "minimal"))
 
 
-def build(recipe: dict):
-    """Construct the real engine through the public constructors."""
+def build(recipe: dict, flags_by_assignment: bool = False):
+    """Construct the real engine through the public constructors. With flags_by_assignment the enabled / lock flags
+    and the default value are set on the finished objects instead (what FllImporter and interactive use do)."""
     inputs = [
         fl.InputVariable(
             name=v["name"], description=v.get("description", ""), enabled=v.get("enabled", True), minimum=v["min"],
@@ -91,6 +92,14 @@ def build(recipe: dict):
                 rules=rules,
             )
         )
+    if flags_by_assignment:
+        # assign the recipe's flag values on the finished objects (independent of how the constructors forward them)
+        for objs, descs in ((inputs, recipe["inputs"]), (outputs, recipe["outputs"]), (blocks, recipe["blocks"])):
+            for o, d in zip(objs, descs):
+                for attr, key in (("enabled", "enabled"), ("lock_range", "lock_range"), ("lock_previous", "lock_previous"),
+                                  ("default_value", "default")):
+                    if hasattr(o, attr) and key in d:
+                        setattr(o, attr, d[key])
     return fl.Engine(name=recipe.get("name", "e"), description=recipe.get("description", ""), input_variables=inputs,
                      output_variables=outputs, rule_blocks=blocks)
 
